@@ -146,7 +146,39 @@ class TlcResult:
         return [e for e in self.errors if "Invariant" in e and "violated" in e]
 
 
-_KV = re.compile(r'^<<"(KVFAIL|KVDIV)", (\d+), "([^"]*)", \{(.*)\}>>$')
+_KV = re.compile(r'^<<"(KVFAIL|KVDIV)",(\d+),"([^"]*)",\{(.*)\}>>$')
+
+
+def _squeeze(s):
+    """remove blanks outside string literals"""
+    out, q = [], False
+    for ch in s:
+        if ch == '"':
+            q = not q
+        if ch in " \t" and not q:
+            continue
+        out.append(ch)
+    return "".join(out)
+
+
+def _join_wrapped(lines):
+    """TLC wraps long printed values over several lines: re-join tuples until << and >> balance"""
+    buf = None
+    for line in lines:
+        st = line.strip()
+        if buf is None:
+            if st.startswith("<<"):
+                buf = st
+            else:
+                yield line
+                continue
+        else:
+            buf += " " + st
+        if buf.count("<<") <= buf.count(">>"):
+            yield _squeeze(buf)
+            buf = None
+    if buf is not None:
+        yield _squeeze(buf)
 
 
 def run_tlc(module, cfg, wd, trace=None, workers=1, cont=False, timeout=900, env=None, heap="4g", name=None, coverage=False, simulate=None, depth=None):
@@ -184,7 +216,7 @@ def run_tlc(module, cfg, wd, trace=None, workers=1, cont=False, timeout=900, env
     r.rc = rc
     r.out = out
     shutil.rmtree(meta, ignore_errors=True)
-    for line in out.splitlines():
+    for line in _join_wrapped(out.splitlines()):
         m = _KV.match(line.strip())
         if m:
             items = set(x.strip().strip('"') for x in m.group(4).split(",") if x.strip())
